@@ -864,16 +864,40 @@ func propC03LoadLinkage(c *Ctx, ld *ssa.Function) {
 	reg := NewRegion(ld)
 	// the slice under examination: what load returns on success
 	var cell *ssa.Alloc
+	var direct ssa.Value
 	for _, rv := range reg.SuccessReturns() {
 		v := stripConv(rv.Vals[0])
+		if isReorgReturn(rv.Ret, c.W.Global("shovel", "ErrReorg")) {
+			continue
+		}
 		if u, ok := v.(*ssa.UnOp); ok && u.Op == token.MUL {
 			if al, ok := u.X.(*ssa.Alloc); ok {
 				cell = al
+				continue
 			}
 		}
+		if _, isConst := v.(*ssa.Const); !isConst {
+			direct = v
+		}
+	}
+	if cell == nil && direct != nil {
+		// the blocks are an ordinary value (assembled after the join from per-partition results)
+		aff := &affEnv{reg: reg}
+		fHeader, fParent := w.Field("eth", "Block", "Header"), w.Field("eth", "Header", "Parent")
+		var skip []Edge
+		for _, f := range reg.Funcs() {
+			skip = append(skip, absentEdges(f, fHeader, fParent)...)
+		}
+		ok, detail := linkageEveryPair(c, linkageSpec{
+			reg: reg, aff: aff,
+			isBlocks:  func(x ssa.Value) bool { return stripConv(x) == direct },
+			blocksRep: direct,
+			skipOK:    skip,
+		})
+		c.Check(rule, "load/linkage-every-adjacent-pair", ld.Pos(), ok, detail)
+		return
 	}
 	if cell == nil {
-		// returned directly as an SSA value (no captured variable): not the shape on today's tree
 		c.Violation(rule, "load/linkage-every-adjacent-pair", ld.Pos(), "cannot identify the variable that holds the blocks load returns")
 		return
 	}
